@@ -543,3 +543,20 @@ def array_fills(mod):
                         out.append((f, i, int(m.group(1)), es, int(i.args[2][1])))
                 break
     return out
+
+
+def narrow_masks(mod):
+    """[(function, insn, constant)]: `and` of a 64-bit value with a constant in [2^31, 2^32) - what `x &= ~mask` gives when the complement was taken
+    in 32 bits and zero-extended: besides the intended bits it clears bits 32..63"""
+    out = []
+    for fn, f in mod.funcs.items():
+        for i in f.all_insns():
+            if i.op == 'and' and (i.ty or '') == 'i64':
+                for o in i.ops:
+                    if re.match(r'^\d+$', o) and 2 ** 31 <= int(o) < 2 ** 32:
+                        out.append((f, i, int(o)))
+    return out
+
+
+def is_narrow_mask_const(c, width=64):
+    return width == 64 and 2 ** 31 <= c < 2 ** 32
